@@ -61,7 +61,16 @@ func hasRecoverBarrier(p *Prog, fn *ssa.Function, at ssa.Instruction) (bool, str
 		setsResult := false
 		eachInstr(cl, func(x ssa.Instruction) {
 			if s, ok := x.(*ssa.Store); ok {
-				if cell := p.localCell(s.Addr); cell != nil && cell.Parent() == fn && isNamedResult(fn, cell) {
+				addr := s.Addr
+				// `defer recoverInto(&err, …)`: the named result is reached through a pointer parameter
+				if prm, isP := addr.(*ssa.Parameter); isP && prm.Parent() == cl {
+					for i, q := range cl.Params {
+						if q == prm && i < len(d.Call.Args) {
+							addr = d.Call.Args[i]
+						}
+					}
+				}
+				if cell := p.localCell(addr); cell != nil && cell.Parent() == fn && isNamedResult(fn, cell) {
 					// a non-nil error, stored on the edge on which a panic was actually recovered
 					if !nilConst(s.Val) && p.reachableCutting(cl, s, nilEdges) {
 						setsResult = true
